@@ -82,6 +82,19 @@ Theorem replace_atomic_any_plan : forall fresh,
 Proof. exact any_plan_allowed. Qed.
 Print Assumptions replace_atomic_any_plan.
 
+(* preexisting_never_written for ANY plan: whichever calls fail — in particular when creating the staging
+   file fails (ENAMETOOLONG for a long output name, unwritable directory) — no protocol ever writes into a
+   pre-existing file: there is no fallback that opens the destination itself *)
+Theorem preexisting_never_written_any_plan : forall fresh,
+  (forall m, m !! fresh m = None) ->
+  forall pl P chunks fin m0 tr d old,
+  proto_ok P fin -> dest_of P = Some d -> m0 !! d = Some old ->
+  forall p f, m0 !! p = Some f ->
+  exists f', wfs (snd (run_proto pl fresh P chunks fin (W m0 0 tr))) !! p = Some f' /\
+             (f' = f \/ (p = d /\ fdata f' = concat chunks)).
+Proof. exact preexisting_never_written_any_plan_proof. Qed.
+Print Assumptions preexisting_never_written_any_plan.
+
 (* non-vacuity: an in-place update of path 2 (old bytes 7 7, mode 0600) with output 1 2 —
    cut before anything: old; cut after CreateTemp: old + staging file; cut in the middle of the writes:
    old + partial staging file; no cut: the complete output with the old mode.  And the three other
@@ -104,3 +117,26 @@ Proof.
   split; [exact fresh_path_spec|]. split; [left; reflexivity|]. split; [reflexivity|].
   repeat split; vm_compute; reflexivity.
 Qed.
+
+(* the CreateTemp-failure branch of every protocol (explicit existing output 3, input 2): the call that
+   creates the staging file fails (its index in each protocol's trace: 3, 0, 1, 2); the run returns an error,
+   the trace shows the failed CreateTemp, nothing was created and both files are what they were *)
+Definition ex_m1 : gmap positive file := {[ 2%positive := File [5%N] 416; 3%positive := File [7%N; 7%N] 384 ]}.
+Definition ct_failed (r : ctl * world) : bool :=
+  existsb (fun e => match ev_op e, ev_res e with OpCreateTemp, Some _ => true | _, _ => false end) (wtr (snd r))
+  && negb (existsb (fun e => match ev_op e, ev_res e with
+                             | OpWrite, None | OpRename, None | OpChmod, None | OpRemove, None => true
+                             | _, _ => false end) (wtr (snd r))).
+Definition ct_run (n : nat) (P : proto) := run_proto (single n) fresh_path P [[1%N]; [2%N]] COk (W ex_m1 0 []).
+Definition ct_ok (n : nat) (P : proto) : bool :=
+  ctl_eqb (fst (ct_run n P)) CErr && ct_failed (ct_run n P) &&
+  match wfs (snd (ct_run n P)) !! 2%positive, wfs (snd (ct_run n P)) !! 3%positive, wfs (snd (ct_run n P)) !! 4%positive with
+  | Some (File [5%N] 416), Some (File [7%N; 7%N] 384), None => true
+  | _, _, _ => false
+  end.
+Example C02_createtemp_failure :
+  ct_ok 3 (PApi KFlag [2%positive] (Some 2%positive) (Some 3%positive)) = true /\
+  ct_ok 0 (PPdf KFlag None 3) = true /\
+  ct_ok 1 (PCut 3) = true /\
+  ct_ok 2 (PCli None 3) = true.
+Proof. repeat split; vm_compute; reflexivity. Qed.
